@@ -2,6 +2,7 @@ import Sif.Spec.C17
 /-
   Helper lemmas for C17: the per-step preservation lemmas behind the trace theorems.
 -/
+set_option linter.unusedSimpArgs false
 namespace Sif.Proofs.C17
 open Sif.Relayer.Loop Sif.Spec.C17
 
@@ -356,5 +357,206 @@ theorem init_gap (p : Nat) : GapInv (init p) { db := p, c := p, first := p } [] 
   · intro hp; left; simpa [init] using hp
   · intro _; rfl
   · intro _ b h1 h2; simp [init] at h1 h2; omega
+
+/-! ### from range-level traces to event-level observations -/
+
+theorem mem_noncesIn (place : List (Nat × Nat)) (lo hi n : Nat) :
+    n ∈ noncesIn place lo hi ↔ ∃ nb, nb ∈ place ∧ nb.1 = n ∧ lo ≤ nb.2 ∧ nb.2 ≤ hi := by
+  unfold noncesIn
+  rw [List.mem_mergeSort]
+  simp only [List.mem_map, List.mem_filter, Bool.and_eq_true, decide_eq_true_eq]
+  constructor
+  · rintro ⟨nb, ⟨hm, h1, h2⟩, rfl⟩; exact ⟨nb, hm, rfl, h1, h2⟩
+  · rintro ⟨nb, hm, rfl, h1, h2⟩; exact ⟨nb, ⟨hm, h1, h2⟩, rfl⟩
+
+theorem noncesIn_placed (place : List (Nat × Nat)) (lo hi : Nat) :
+    (noncesIn place lo hi).all (placedIn place lo hi) = true := by
+  rw [List.all_eq_true]
+  intro n hn
+  obtain ⟨nb, hm, rfl, h1, h2⟩ := (mem_noncesIn place lo hi n).1 hn
+  unfold placedIn
+  rw [List.any_eq_true]
+  exact ⟨nb, hm, by simp [h1, h2]⟩
+
+/-- simulation relation between the range-level observer and the event-level observer -/
+def Rel (place : List (Nat × Nat)) (o : Obs) (r : RObs) : Prop :=
+  o.c = r.c ∧ o.mh = r.mh ∧ o.db = r.db ∧
+  (o.pending = none ∨
+    (o.pending = r.pending ∧
+      (o.handled = true → ∀ lo hi, r.pending = some (lo, hi) →
+        ∀ nb, nb ∈ place → lo ≤ nb.2 → nb.2 ≤ hi → nb.1 ∈ r.sent)))
+
+theorem observeRawAll_append (t : Nat) (place : List (Nat × Nat)) (r : RObs) (a b : List Raw) :
+    observeRawAll t place r (a ++ b) = (observeRawAll t place r a).bind (fun r' => observeRawAll t place r' b) := by
+  induction a generalizing r with
+  | nil => rfl
+  | cons e es ih =>
+    simp only [List.cons_append, observeRawAll]
+    cases observeRaw t place r e with
+    | none => rfl
+    | some r' => exact ih r'
+
+theorem observe_sim (t : Nat) (place : List (Nat × Nat)) (o o' : Obs) (r : RObs) (e : Ev)
+    (h : observe t o e = some o') (hr : Rel place o r) :
+    ∃ r', observeRawAll t place r (lowerEv place e) = some r' ∧ Rel place o' r' := by
+  obtain ⟨hc, hm, hd, hp⟩ := hr
+  cases e with
+  | head n =>
+    simp only [observe] at h; cases h
+    exact ⟨{ r with mh := max r.mh n, pending := none, sent := [] },
+      by simp [lowerEv, observeRawAll, observeRaw], by simp [Rel, hc, hm, hd]⟩
+  | restart p =>
+    simp only [observe] at h
+    by_cases hpd : p = o.db
+    · simp only [hpd, if_true] at h; cases h
+      refine ⟨{ r with c := r.db, pending := none, sent := [] }, ?_, ?_⟩
+      · simp [lowerEv, observeRawAll, observeRaw, hpd, hd]
+      · simp [Rel, hm, hd]
+    · simp [hpd] at h
+  | query lo hi ok =>
+    simp only [observe] at h
+    have key : ∀ (cnd : Bool), (if cnd = true then some ({ o with c := lo, pending := if ok then some (lo, hi) else none, handled := false } : Obs) else none) = some o' →
+        cnd = true ∧ o' = { o with c := lo, pending := if ok then some (lo, hi) else none, handled := false } := by
+      intro cnd hh; cases cnd <;> simp at hh ⊢; exact hh.symm
+    by_cases hz : o.c = 0
+    · simp only [hz, if_true] at h
+      obtain ⟨hcond, rfl⟩ := key _ h
+      simp only [Bool.and_eq_true, decide_eq_true_eq] at hcond
+      refine ⟨{ r with c := lo, pending := if ok then some (lo, hi) else none, sent := [] }, ?_, ?_⟩
+      · have hz' : r.c = 0 := by rw [← hc]; exact hz
+        have h1 : hi + t ≤ r.mh := by rw [← hm]; exact hcond.1
+        simp [lowerEv, observeRawAll, observeRaw, hz', h1, hcond.2]
+      · exact ⟨rfl, hm, hd, Or.inr ⟨rfl, by intro hh; simp at hh⟩⟩
+    · simp only [hz, if_false] at h
+      obtain ⟨hcond, rfl⟩ := key _ h
+      simp only [Bool.and_eq_true, decide_eq_true_eq] at hcond
+      refine ⟨{ r with c := lo, pending := if ok then some (lo, hi) else none, sent := [] }, ?_, ?_⟩
+      · have hz' : ¬ r.c = 0 := by rw [← hc]; exact hz
+        have h1 : hi + t ≤ r.mh := by rw [← hm]; exact hcond.1
+        have h2 : lo = r.c := by rw [← hc]; exact hcond.2
+        simp [lowerEv, observeRawAll, observeRaw, hz', h1, h2]
+      · exact ⟨rfl, hm, hd, Or.inr ⟨rfl, by intro hh; simp at hh⟩⟩
+  | submit lo hi =>
+    simp only [observe] at h
+    split at h
+    · rename_i hcond
+      cases h
+      simp only [Bool.and_eq_true, decide_eq_true_eq] at hcond
+      obtain ⟨hpend, _⟩ := hcond
+      have hrp : r.pending = some (lo, hi) := by
+        cases hp with
+        | inl hn => rw [hn] at hpend; cases hpend
+        | inr hq => rw [← hq.1]; exact hpend
+      by_cases hempty : noncesIn place lo hi = []
+      · refine ⟨r, by simp [lowerEv, hempty, observeRawAll], hc, hm, hd, ?_⟩
+        right
+        refine ⟨by simpa using hpend.trans hrp.symm, ?_⟩
+        intro _ lo' hi' hq nb hnb h1 h2
+        rw [hrp] at hq; cases hq
+        have : nb.1 ∈ noncesIn place lo hi := (mem_noncesIn place lo hi nb.1).2 ⟨nb, hnb, rfl, h1, h2⟩
+        rw [hempty] at this; cases this
+      · refine ⟨{ r with sent := noncesIn place lo hi ++ r.sent }, ?_, hc, hm, hd, ?_⟩
+        · simp [lowerEv, hempty, observeRawAll, observeRaw, hrp, noncesIn_placed]
+        · right
+          refine ⟨by simpa using hpend.trans hrp.symm, ?_⟩
+          intro _ lo' hi' hq nb hnb h1 h2
+          simp only at hq
+          rw [hrp] at hq; cases hq
+          exact List.mem_append_left _ ((mem_noncesIn place lo hi nb.1).2 ⟨nb, hnb, rfl, h1, h2⟩)
+    · cases h
+  | put v =>
+    simp only [observe] at h
+    cases hpe : o.pending with
+    | none => simp [hpe] at h
+    | some lh =>
+      obtain ⟨lo, hi⟩ := lh
+      simp only [hpe] at h
+      split at h
+      · rename_i hcond
+        cases h
+        simp only [Bool.and_eq_true, decide_eq_true_eq] at hcond
+        obtain ⟨hh, hv⟩ := hcond
+        have hq : o.pending = r.pending ∧ (o.handled = true → ∀ lo hi, r.pending = some (lo, hi) →
+            ∀ nb, nb ∈ place → lo ≤ nb.2 → nb.2 ≤ hi → nb.1 ∈ r.sent) := by
+          cases hp with
+          | inl hn => rw [hn] at hpe; cases hpe
+          | inr hq => exact hq
+        have hrp : r.pending = some (lo, hi) := by rw [← hq.1]; exact hpe
+        refine ⟨{ r with db := v, c := v }, ?_, by simp [Rel, hm]⟩
+        have hall : allSentBelow place r.sent lo v = true := by
+          unfold allSentBelow
+          rw [List.all_eq_true]
+          intro nb hnb
+          by_cases hin : lo ≤ nb.2 ∧ nb.2 < v
+          · have := hq.2 hh lo hi hrp nb hnb hin.1 (by omega)
+            simp [hin.1, hin.2, this]
+          · have : (decide (lo ≤ nb.2) && decide (nb.2 < v)) = false := by
+              simp only [Bool.and_eq_false_iff, decide_eq_false_iff_not]
+              by_cases h1 : lo ≤ nb.2
+              · right; intro h2; exact hin ⟨h1, h2⟩
+              · left; exact h1
+            simp [this]
+        have hle : v ≤ hi + 1 := by omega
+        simp [lowerEv, observeRawAll, observeRaw, hrp, hall, hle]
+      · cases h
+
+theorem observeAll_sim (t : Nat) (place : List (Nat × Nat)) (tr : List Ev) (o o' : Obs) (r : RObs)
+    (h : observeAll t o tr = some o') (hr : Rel place o r) :
+    ∃ r', observeRawAll t place r (lower place tr) = some r' ∧ Rel place o' r' := by
+  induction tr generalizing o r with
+  | nil => simp only [observeAll] at h; cases h; exact ⟨r, rfl, hr⟩
+  | cons e es ih =>
+    simp only [observeAll] at h
+    cases he : observe t o e with
+    | none => simp [he] at h
+    | some o1 =>
+      simp only [he] at h
+      obtain ⟨r1, h1, hr1⟩ := observe_sim t place o o1 r e he hr
+      obtain ⟨r2, h2, hr2⟩ := ih o1 r1 h hr1
+      refine ⟨r2, ?_, hr2⟩
+      simp only [lower, List.flatMap_cons]
+      rw [observeRawAll_append, h1]
+      exact h2
+
+/-! ### cursor bookkeeping and coverage carry over to the event level -/
+
+theorem rawCurStep_lower (place : List (Nat × Nat)) (k : Cur) (e : Ev) :
+    (lowerEv place e).foldl rawCurStep k = curStep k e := by
+  cases e with
+  | submit lo hi => by_cases h : noncesIn place lo hi = [] <;> simp [lowerEv, h, rawCurStep, curStep]
+  | head n => simp [lowerEv, rawCurStep, curStep]
+  | query lo hi ok => simp [lowerEv, rawCurStep, curStep]
+  | put v => simp [lowerEv, rawCurStep, curStep]
+  | restart p => simp [lowerEv, rawCurStep, curStep]
+
+theorem rawCurOf_lower (place : List (Nat × Nat)) (tr : List Ev) (k : Cur) :
+    (lower place tr).foldl rawCurStep k = tr.foldl curStep k := by
+  induction tr generalizing k with
+  | nil => rfl
+  | cons e es ih =>
+    simp only [lower, List.flatMap_cons, List.foldl_append, List.foldl_cons]
+    rw [rawCurStep_lower]
+    exact ih _
+
+theorem covered_claims (place : List (Nat × Nat)) (tr : List Ev) (nb : Nat × Nat) (hnb : nb ∈ place)
+    (h : covered tr nb.2 = true) : nb.1 ∈ allClaims (lower place tr) := by
+  unfold covered at h
+  rw [List.any_eq_true] at h
+  obtain ⟨e, he, hc⟩ := h
+  cases e with
+  | submit lo hi =>
+    simp only [Bool.and_eq_true, decide_eq_true_eq] at hc
+    have hmem : nb.1 ∈ noncesIn place lo hi := (mem_noncesIn place lo hi nb.1).2 ⟨nb, hnb, rfl, hc.1, hc.2⟩
+    have hne : noncesIn place lo hi ≠ [] := by intro h0; rw [h0] at hmem; cases hmem
+    unfold allClaims lower
+    rw [List.mem_flatMap]
+    refine ⟨Raw.claims (noncesIn place lo hi), ?_, hmem⟩
+    rw [List.mem_flatMap]
+    exact ⟨Ev.submit lo hi, he, by simp [lowerEv, hne]⟩
+  | head n => simp at hc
+  | query lo hi ok => simp at hc
+  | put v => simp at hc
+  | restart p => simp at hc
+
 
 end Sif.Proofs.C17
